@@ -905,6 +905,19 @@ def main():
                       'how_to_replay': 'bin/check C20 --replay <this file>'})
         reported += 1
 
+    # known finding D54 (deterministic replay; the generators keep text within 50 UTF-8 bytes): longer text is cut at 50 bytes,
+    # and a cut inside a multi-byte character makes the layer unreadable
+    for f in ck.findings:
+        if f.get('status') == 'open' and f.get('signature') == 'shp_text_over_50_bytes':
+            def _rt(val):
+                fc = FeatureCollection([GeoPoint(Coordinate(1.0, 2.0), properties={'label': val})])
+                _n, back, _l = shapefile_roundtrip(fc, FeatureCollection)
+                return back
+            b1, b2 = _rt(f['replay']['cut']), _rt(f['replay']['unreadable'])
+            cut = b1[0] == 'Ok' and b1[1].geoshapes[0].properties.get('label') == f['replay']['cut'][:50]
+            if cut and b2[0] != 'Ok':
+                ck.known(f)
+
     seen = set()
     for m, clause, sig, text in flagged:
         f = None
